@@ -69,6 +69,16 @@ Definition s_not (a : term) : term :=
 Definition s_add (a b : term) : term :=
   if is_c a 0 then b else TOp2 ADD a b.
 
+(* a constant that is a power of two below 2^256: its exponent *)
+Definition pow2_exp (t : term) : option Z :=
+  match t with
+  | TConst c => if (0 <? c) && (c =? 2 ^ Z.log2 c) && (Z.log2 c <? 256) then Some (Z.log2 c) else None
+  | _ => None
+  end.
+
+Definition big_shift (t : term) : bool :=
+  match t with TConst c => 256 <=? c | _ => false end.
+
 Definition shl_one (t : term) : option term :=
   match t with
   | TOp2 SHL y o => if is_c o 1 then Some y else None
@@ -78,14 +88,17 @@ Definition shl_one (t : term) : option term :=
 Definition s_mul (a b : term) : term :=
   if is_c a 0 then TConst 0
   else if is_c a 1 then b
-  else match shl_one b with
+  else match pow2_exp a with
+  | Some k => TOp2 SHL (TConst k) b                (* 2^k * X = X << k *)
+  | None =>
+  match shl_one b with
        | Some y => TOp2 SHL y a                    (* MUL(X,SHL(Y,1)) *)
        | None =>
          match shl_one a with
          | Some y => TOp2 SHL y b
          | None => TOp2 MUL a b
          end
-       end.
+       end end.
 
 Definition s_sub (a b : term) : term :=
   if is_c b 0 then a else if term_eqb a b then TConst 0 else TOp2 SUB a b.
@@ -94,10 +107,13 @@ Definition s_div (a b : term) : term :=
   if is_c b 1 then a
   else if is_c b 0 then TConst 0
   else if is_c a 0 then TConst 0
-  else match shl_one b with
+  else match pow2_exp b with
+  | Some k => TOp2 SHR (TConst k) a                (* X / 2^k = X >> k *)
+  | None =>
+  match shl_one b with
        | Some y => TOp2 SHR y a                    (* DIV(X,SHL(Y,1)) *)
        | None => TOp2 DIV a b
-       end.
+       end end.
 
 Definition s_sdiv (a b : term) : term :=
   if is_c b 1 then a else if is_c b 0 then TConst 0 else if is_c a 0 then TConst 0 else TOp2 SDIV a b.
@@ -148,63 +164,85 @@ Definition and_const_shl_view (a b : term) : option (Z * Z * term) :=
   | _, _ => None
   end.
 
+Fixpoint first_some {A} (l : list (option A)) : option A :=
+  match l with
+  | [] => None
+  | Some x :: _ => Some x
+  | None :: r => first_some r
+  end.
+
+(* each rule: Some t when it applies *)
+Definition ra_const_shl (a b : term) : option term :=
+  match and_const_shl_view a b with
+  | Some (c, s, y) => Some (TOp2 SHL (TConst s) (mk2 AND (TConst (wshr s c)) y))   (* c & (y << s) = ((c >> s) & y) << s *)
+  | None => None
+  end.
+Definition ra_and_r (a b : term) : option term :=      (* X & (X & Y) = X & Y *)
+  match inner AND b with Some p => if among a p then Some b else None | None => None end.
+Definition ra_and_l (a b : term) : option term :=
+  match inner AND a with Some p => if among b p then Some a else None | None => None end.
+Definition ra_or_r (a b : term) : option term :=       (* X & (X | Y) = X *)
+  match inner OR b with Some p => if among a p then Some a else None | None => None end.
+Definition ra_or_l (a b : term) : option term :=
+  match inner OR a with Some p => if among b p then Some b else None | None => None end.
+Definition ra_shl_shl (a b : term) : option term :=    (* (Y << S) & (Z << S) = (Y & Z) << S *)
+  match inner SHL a, inner SHL b with
+  | Some (s, y), Some (s', z) => if term_eqb s s' then Some (TOp2 SHL s (mk2 AND y z)) else None
+  | _, _ => None
+  end.
+
 Definition s_and (a b : term) : term :=
   if is_c a 0 then TConst 0
   else if term_eqb a b then a
   else if is_c a (W - 1) then b
   else if is_c a (2 ^ 160 - 1) && is_addr b then b
   else if is_not_of b a || is_not_of a b then TConst 0
-  else match and_const_shl_view a b with
-  | Some (c, s, y) => TOp2 SHL (TConst s) (mk2 AND (TConst (wshr s c)) y)   (* c & (y << s) = ((c >> s) & y) << s *)
-  | None =>
-  match inner AND b with
-  | Some p => if among a p then b else TOp2 AND a b
-  | None =>
-  match inner AND a with
-  | Some p => if among b p then a else TOp2 AND a b
-  | None =>
-  match inner OR b with
-  | Some p => if among a p then a else TOp2 AND a b
-  | None =>
-  match inner OR a with
-  | Some p => if among b p then b else TOp2 AND a b
-  | None =>
-  match inner SHL a, inner SHL b with
-  | Some (s, y), Some (s', z) => if term_eqb s s' then TOp2 SHL s (mk2 AND y z) else TOp2 AND a b
-  | _, _ => TOp2 AND a b
-  end end end end end end.
+  else match first_some [ra_const_shl a b; ra_and_r a b; ra_and_l a b; ra_or_r a b; ra_or_l a b; ra_shl_shl a b] with
+       | Some t => t
+       | None => TOp2 AND a b
+       end.
+
+Definition ro_and_r (a b : term) : option term :=      (* X | (X & Y) = X *)
+  match inner AND b with Some p => if among a p then Some a else None | None => None end.
+Definition ro_and_l (a b : term) : option term :=
+  match inner AND a with Some p => if among b p then Some b else None | None => None end.
+Definition ro_or_r (a b : term) : option term :=       (* X | (X | Y) = X | Y *)
+  match inner OR b with Some p => if among a p then Some b else None | None => None end.
+Definition ro_or_l (a b : term) : option term :=
+  match inner OR a with Some p => if among b p then Some a else None | None => None end.
 
 Definition s_or (a b : term) : term :=
   if is_c a 0 then b
   else if term_eqb a b then a
   else if is_not_of b a || is_not_of a b then TConst (W - 1)
-  else match inner AND b with
-  | Some p => if among a p then a else TOp2 OR a b
-  | None =>
-  match inner AND a with
-  | Some p => if among b p then b else TOp2 OR a b
-  | None =>
-  match inner OR b with
-  | Some p => if among a p then b else TOp2 OR a b
-  | None =>
-  match inner OR a with
-  | Some p => if among b p then a else TOp2 OR a b
-  | None => TOp2 OR a b
-  end end end end.
+  else match first_some [ro_and_r a b; ro_and_l a b; ro_or_r a b; ro_or_l a b] with
+       | Some t => t
+       | None => TOp2 OR a b
+       end.
+
+Definition rx_r (a b : term) : option term :=          (* X ^ (X ^ Y) = Y *)
+  match inner XOR b with
+  | Some (x, y) => if term_eqb a x then Some y else if term_eqb a y then Some x else None
+  | None => None
+  end.
+Definition rx_l (a b : term) : option term :=
+  match inner XOR a with
+  | Some (x, y) => if term_eqb b x then Some y else if term_eqb b y then Some x else None
+  | None => None
+  end.
 
 Definition s_xor (a b : term) : term :=
   if term_eqb a b then TConst 0
   else if is_c a 0 then b
-  else match inner XOR b with
-  | Some (x, y) => if term_eqb a x then y else if term_eqb a y then x else TOp2 XOR a b
-  | None =>
-  match inner XOR a with
-  | Some (x, y) => if term_eqb b x then y else if term_eqb b y then x else TOp2 XOR a b
-  | None => TOp2 XOR a b
-  end end.
+  else match first_some [rx_r a b; rx_l a b] with
+       | Some t => t
+       | None => TOp2 XOR a b
+       end.
 
 Definition s_shift (o : op2) (a b : term) : term :=
-  if is_c a 0 then b else if is_c b 0 then TConst 0 else TOp2 o a b.
+  if is_c a 0 then b else if is_c b 0 then TConst 0
+  else if big_shift a && negb (op2_eqb o SAR) then TConst 0       (* logical shifts by 256 or more *)
+  else TOp2 o a b.
 
 Definition both_const (a b : term) : option (Z * Z) :=
   match a, b with TConst x, TConst y => Some (x, y) | _, _ => None end.
